@@ -33,7 +33,7 @@ def r_provenance(ctx):
                 continue
             n += 1
             ctx.ob(rid, 'caller:%s:%s' % (callee.split('::', 1)[1], f.path), f.path in allowed_new, '%s called in %s' % (callee, f.path), f.where(t['line']))
-    ctx.floor(rid, 'Span::new / Position::new call sites', n, 7)
+    ctx.floor(rid, 'Span::new / Position::new call sites', n, 4)
     for p, f in fx.F.items():
         if f.macro or f.kind in ('Const', 'AssocConst'):
             continue
@@ -190,7 +190,7 @@ def r_same_text(ctx):
     deny = re.compile(r'::(trim\w*|replace\w*|to_lowercase|to_uppercase|strip_\w+|split\w*|lines|chars)$')
     for path in ('<A as parse::ParseFromStr>::parse_from_str', 'TemplateProgram::new', 'CompiledProgram::new', 'TemplateProgram::instantiate', 'error::RichError::with_file'):
         fn = ctx.anchor(fx, path)
-        hits = [c for bid, c, t in fn.calls() if deny.search(c)]
+        hits = [c for bid, c, t in deep_calls(fx, fn) if deny.search(c)]
         ctx.ob(rid, 'no-text-transform:' + path, not hits, 'no string transformation in %s' % path, fn.where(), str(hits))
 
 
